@@ -107,7 +107,13 @@ Bad ==
   \cup b(\A r \in proto \cap Labeled : cost[r] = 0 /\ lab[r] = L[r] /\ pred[r] = NIL, <<"C02", "prototype_lost_cost0_or_own_label">>)
   \cup b(\A qi \in 1..Len(Tr.q) : Tr.q[qi].res \in {lab[t] : t \in ArgMin(QFun(qi))}, <<"C03", "prediction_not_label_of_an_exhaustive_minimiser">>)
   \cup b(TieFree => \A i \in Labeled : lab[i] = L[i], <<"C04", "tiefree_training_sample_lost_own_label">>)
+  \cup b(TieFree => \A qi \in 1..Len(Tr.q) : Tr.q[qi].self # 0 => Tr.q[qi].res = L[Tr.q[qi].self],
+       <<"C04", "tiefree_resubstitution_returned_another_label">>)
   \cup b(\A i \in Nodes : cost[i] < INF, <<"C15", "sample_not_conquered">>)
+  \cup b("tw" \in DOMAIN Tr => /\ cost = [i \in Nodes |-> Tr.tw.cost[i]] /\ pred = [i \in Nodes |-> Tr.tw.pred[i]]
+                                /\ lab = [i \in Nodes |-> Tr.tw.lab[i]] /\ proto = SeqSet(Tr.tw.proto)
+                                /\ order = Tr.tw.order,
+       <<"C15", "empty_unlabeled_set_differs_from_supervised_training">>)
 
 ASSUME /\ TLCSet(1, {}) /\ TLCSet(2, {}) /\ TLCSet(3, {}) /\ TLCSet(4, {}) /\ TLCSet(5, {}) /\ TLCSet(6, {})
 Add(r, x) == TLCSet(r, TLCGet(r) \cup {x})
